@@ -32,13 +32,13 @@ open Juniper.Gen Juniper.Model.ParMap Juniper.Proofs.ParMap
 /-- **The measure (MapStream).** Every step other than a new consumer call strictly decreases `SM.nu`
 — in every state, reachable or not, and whatever the generated guards are; and in reachable states of
 the code as it is, `SM.nu` is at most `8·max(B,P') + 6·P' + 21` where `P'` is the clamped parallelism. -/
-theorem mapStream_measure (cfg : Stream.Cfg) :
+theorem mapStream_measure (cfg : Stream.Cfg) (hc : cfg.code = Stream.code) :
     (∀ s l s', Stream.step cfg s l = some s' → SM.isCall l = false → SM.nu s' < SM.nu s) ∧
-    (cfg.code = Stream.code → 1 ≤ cfg.gmp → ∀ s, Stream.Reach cfg s →
+    (1 ≤ cfg.gmp → ∀ s, Stream.Reach cfg s →
       SM.nu s ≤ 8 * (max cfg.B (Stream.par cfg)).toNat + 6 * (Stream.par cfg).toNat + 21) := by
-  refine ⟨fun s l s' h hl => SM.nu_decreases h hl, ?_⟩
-  intro hc hg s h
-  have hs : cfg.code.Sound := hc ▸ stream_code_sound
+  have hs : cfg.code.Sound := hc ▸ stream_code_sound stream_ties
+  refine ⟨fun s l s' h hl => SM.nu_decreases hs.ctxPlain h hl, ?_⟩
+  intro hg s h
   have := SM.nu_le hs hg h
   simp only [SM.nuBound, S.numTokens_eq hs, S.numWorkers_eq hs, S.buf_eq hs] at this
   exact this
@@ -62,10 +62,11 @@ theorem mapStream_internal_steps_terminate (cfg : Stream.Cfg) (hc : cfg.code = S
       ls.length ≤ 8 * (max cfg.B (Stream.par cfg)).toNat + 6 * (Stream.par cfg).toNat + 21) ∧
     ¬ ∃ σ : Nat → Stream.St, σ 0 = s ∧
         ∀ n, ∃ l, Stream.Label.isEnv l = false ∧ Stream.step cfg (σ n) l = some (σ (n + 1)) := by
-  have hb := (mapStream_measure cfg).2 hc hg s h
+  have hs : cfg.code.Sound := hc ▸ stream_code_sound stream_ties
+  have hb := (mapStream_measure cfg hc).2 hg s h
   constructor
   · intro ls s' hl hr
-    have := SM.run_nu hr (fun l hm => SM.isCall_of_not_env (hl l hm))
+    have := SM.run_nu hs.ctxPlain hr (fun l hm => SM.isCall_of_not_env (hl l hm))
     exact ⟨this, by omega⟩
   · rintro ⟨σ, h0, hσ⟩
     have key : ∀ n, n + SM.nu (σ n) ≤ SM.nu (σ 0) := by
@@ -74,7 +75,7 @@ theorem mapStream_internal_steps_terminate (cfg : Stream.Cfg) (hc : cfg.code = S
       | zero => simp
       | succ n ih =>
         obtain ⟨l, hl, hst⟩ := hσ n
-        have := SM.nu_decreases hst (SM.isCall_of_not_env hl)
+        have := SM.nu_decreases hs.ctxPlain hst (SM.isCall_of_not_env hl)
         omega
     have := key (SM.nu (σ 0) + 1)
     omega
@@ -98,10 +99,10 @@ theorem mapStream_quiescent_next_served (cfg : Stream.Cfg) (hc : cfg.code = Stre
     (∃ ls s', (∀ l ∈ ls, Stream.Label.isEnv l = false) ∧ Stream.run cfg s ls = some s' ∧
         ls.length ≤ SM.nu s ∧ SM.Quiescent cfg s') ∧
     (SM.Quiescent cfg s → S.consBusy s.cons = true → 0 < Stream.fRunning s ∨ Stream.srcBusy s = true) := by
-  have hs : cfg.code.Sound := hc ▸ stream_code_sound
+  have hs : cfg.code.Sound := hc ▸ stream_code_sound stream_ties
   constructor
-  · obtain ⟨ls, s', h1, h2, h3⟩ := SM.exists_quiescent_run cfg (SM.nu s) s (Nat.le_refl _)
-    have := SM.run_nu h2 (fun l hm => SM.isCall_of_not_env (h1 l hm))
+  · obtain ⟨ls, s', h1, h2, h3⟩ := SM.exists_quiescent_run cfg hs.ctxPlain (SM.nu s) s (Nat.le_refl _)
+    have := SM.run_nu hs.ctxPlain h2 (fun l hm => SM.isCall_of_not_env (h1 l hm))
     exact ⟨ls, s', h1, h2, by omega, h3⟩
   · intro hq hb
     rcases S.progress hs hg h hb with ⟨l, hl, hen⟩ | h' | h'
@@ -135,11 +136,11 @@ theorem mapStream_next_terminates (cfg : Stream.Cfg) (hc : cfg.code = Stream.cod
       s'.cons = .idle ∧ ∃ r, s'.results = s.results ++ [r]) ∧
     (∃ ls s', (∀ l ∈ ls, Stream.Label.isEnv l = false ∨ SM.isReturn l = true) ∧
       Stream.run cfg s ls = some s' ∧ ls.length ≤ SM.nu s ∧ s'.cons = .idle ∧ ∃ r, s'.results = s.results ++ [r]) := by
-  have hs : cfg.code.Sound := hc ▸ stream_code_sound
+  have hs : cfg.code.Sound := hc ▸ stream_code_sound stream_ties
   have h0 : SM.NextOutcome s s := Or.inl ⟨hn, rfl⟩
-  refine ⟨?_, (mapStream_measure cfg).2 hc hg s h, ?_, ?_⟩
+  refine ⟨?_, (mapStream_measure cfg hc).2 hg s h, ?_, ?_⟩
   · intro ls s' hl hr
-    exact ⟨SM.run_nu hr hl, SM.nextOutcome_run h0 hl hr⟩
+    exact ⟨SM.run_nu hs.ctxPlain hr hl, SM.nextOutcome_run h0 hl hr⟩
   · intro ls s' hl hr hq hf hsrc
     rcases SM.nextOutcome_run h0 hl hr with ⟨hp, _⟩ | hret
     · exfalso
@@ -150,7 +151,7 @@ theorem mapStream_next_terminates (cfg : Stream.Cfg) (hc : cfg.code = Stream.cod
       · simp [hsrc] at h'
     · exact hret
   · obtain ⟨ls, s', h1, h2, h3⟩ := SM.exists_next_run hs hg s (SM.nu s) s h h0 (Nat.le_refl _)
-    have := SM.run_nu h2 (fun l hm => SM.isCall_of_service (h1 l hm))
+    have := SM.run_nu hs.ctxPlain h2 (fun l hm => SM.isCall_of_service (h1 l hm))
     exact ⟨ls, s', h1, h2, by omega, h3⟩
 
 /-- non-vacuity: `Next` is called while item 0 is still inside `f` and the dispatcher inside the source;
@@ -176,11 +177,11 @@ theorem mapStream_close_terminates (cfg : Stream.Cfg) (hc : cfg.code = Stream.co
       SM.Quiescent cfg s' → Stream.fRunning s' = 0 → Stream.srcBusy s' = false → s'.cons = .closed) ∧
     (∃ ls s', (∀ l ∈ ls, Stream.Label.isEnv l = false ∨ SM.isReturn l = true) ∧
       Stream.run cfg s ls = some s' ∧ ls.length ≤ SM.nu s ∧ s'.cons = .closed) := by
-  have hs : cfg.code.Sound := hc ▸ stream_code_sound
+  have hs : cfg.code.Sound := hc ▸ stream_code_sound stream_ties
   have hp : SM.closePhase s.cons = true := by simp [hclose, SM.closePhase]
-  refine ⟨?_, (mapStream_measure cfg).2 hc hg s h, ?_, ?_⟩
+  refine ⟨?_, (mapStream_measure cfg hc).2 hg s h, ?_, ?_⟩
   · intro ls s' hr
-    exact SM.run_nu hr (SM.closePhase_run hp hr).1
+    exact SM.run_nu hs.ctxPlain hr (SM.closePhase_run hp hr).1
   · intro ls s' hr hq hf hsrc
     have hp' := (SM.closePhase_run hp hr).2
     cases hc' : s'.cons with
@@ -193,7 +194,7 @@ theorem mapStream_close_terminates (cfg : Stream.Cfg) (hc : cfg.code = Stream.co
       · simp [hsrc] at h'
     | _ => simp [hc', SM.closePhase] at hp'
   · obtain ⟨ls, s', h1, h2, h3⟩ := SM.exists_close_run hs hg (SM.nu s) s h hp (Nat.le_refl _)
-    have := SM.run_nu h2 (fun l hm => SM.isCall_of_service (h1 l hm))
+    have := SM.run_nu hs.ctxPlain h2 (fun l hm => SM.isCall_of_service (h1 l hm))
     exact ⟨ls, s', h1, h2, by omega, h3⟩
 
 /-- non-vacuity: `Close` is called while one result sits in `c`, one call of `f` is running and the
@@ -219,7 +220,7 @@ theorem mapIterator_measure (cfg : Iter.Cfg) (hc : cfg.code = Iter.code) :
     (∀ s l s', Iter.step cfg s l = some s' → l ≠ .nextCall → IM.nu cfg s' < IM.nu cfg s) ∧
     (1 ≤ cfg.gmp → ∀ s, Iter.Reach cfg s →
       IM.nu cfg s ≤ 6 * (max cfg.B (Iter.par cfg)).toNat + 3 * (Iter.par cfg).toNat + 15) := by
-  have hs : cfg.code.Sound := hc ▸ iter_code_sound
+  have hs : cfg.code.Sound := hc ▸ iter_code_sound iter_ties
   refine ⟨fun s l s' h hl => IM.nu_decreases hs h hl, ?_⟩
   intro hg s h
   have := IM.nu_le hs hg h
@@ -243,7 +244,7 @@ theorem mapIterator_internal_steps_terminate (cfg : Iter.Cfg) (hc : cfg.code = I
       ls.length ≤ 6 * (max cfg.B (Iter.par cfg)).toNat + 3 * (Iter.par cfg).toNat + 15) ∧
     ¬ ∃ σ : Nat → Iter.St, σ 0 = s ∧
         ∀ n, ∃ l, Iter.Label.isEnv l = false ∧ Iter.step cfg (σ n) l = some (σ (n + 1)) := by
-  have hs : cfg.code.Sound := hc ▸ iter_code_sound
+  have hs : cfg.code.Sound := hc ▸ iter_code_sound iter_ties
   have hb := (mapIterator_measure cfg hc).2 hg s h
   constructor
   · intro ls s' hl hr
@@ -278,7 +279,7 @@ theorem mapIterator_quiescent_next_served (cfg : Iter.Cfg) (hc : cfg.code = Iter
     (∃ ls s', (∀ l ∈ ls, Iter.Label.isEnv l = false) ∧ Iter.run cfg s ls = some s' ∧
         ls.length ≤ IM.nu cfg s ∧ IM.Quiescent cfg s') ∧
     (IM.Quiescent cfg s → s.cons = .next → 0 < Iter.fRunning s ∨ s.disp = .inNext) := by
-  have hs : cfg.code.Sound := hc ▸ iter_code_sound
+  have hs : cfg.code.Sound := hc ▸ iter_code_sound iter_ties
   constructor
   · obtain ⟨ls, s', h1, h2, h3⟩ := IM.exists_quiescent_run hs (IM.nu cfg s) s (Nat.le_refl _)
     have := IM.run_nu hs h2 (fun l hm => IM.ne_nextCall_of_not_env (h1 l hm))
@@ -312,7 +313,7 @@ theorem mapIterator_next_terminates (cfg : Iter.Cfg) (hc : cfg.code = Iter.code)
       s'.cons = .idle ∧ ∃ r, s'.results = s.results ++ [r]) ∧
     (∃ ls s', (∀ l ∈ ls, Iter.Label.isEnv l = false ∨ IM.isReturn l = true) ∧
       Iter.run cfg s ls = some s' ∧ ls.length ≤ IM.nu cfg s ∧ s'.cons = .idle ∧ ∃ r, s'.results = s.results ++ [r]) := by
-  have hs : cfg.code.Sound := hc ▸ iter_code_sound
+  have hs : cfg.code.Sound := hc ▸ iter_code_sound iter_ties
   have h0 : IM.NextOutcome s s := Or.inl ⟨hn, rfl⟩
   refine ⟨?_, (mapIterator_measure cfg hc).2 hg s h, ?_, ?_⟩
   · intro ls s' hl hr
@@ -347,7 +348,7 @@ theorem mapIterator_drain_terminates (cfg : Iter.Cfg) (hc : cfg.code = Iter.code
     (s : Iter.St) (h : Iter.Reach cfg s) (hend : s.srcEnded = true) :
     (∀ ls s', Iter.run cfg s ls = some s' → Iter.NextRes.end ∉ s'.results → ls.length + IM.delta s' ≤ IM.delta s) ∧
     (∃ ls s', Iter.run cfg s ls = some s' ∧ Iter.NextRes.end ∈ s'.results ∧ ls.length ≤ IM.delta s + 1) := by
-  have hs : cfg.code.Sound := hc ▸ iter_code_sound
+  have hs : cfg.code.Sound := hc ▸ iter_code_sound iter_ties
   have hd : s.disp = .done := by
     have hse := (I.invA hs hg h).SE
     rw [hend] at hse
